@@ -75,7 +75,9 @@ func (c *specCtx) node(n *SpecNode) Val {
 		qv := fmt.Sprintf("q!%s!%d", n.Var, c.x.smt.fresh)
 		saved, had := c.env[n.Var]
 		c.env[n.Var] = Val{T: t, L: []string{qv}}
+		c.x.quantDepth++
 		body := c.node(n.A).S()
+		c.x.quantDepth--
 		if had {
 			c.env[n.Var] = saved
 		} else {
@@ -566,6 +568,13 @@ func (c *specCtx) call(t *ast.CallExpr, n *SpecNode) Val {
 		k = c.coerce(k, mt.Key())
 		_, has := c.x.mapLoad(c.st, m, k)
 		return boolVal(has)
+	case "cacheHas", "cacheVal":
+		// contents of a go-cache object (model): cacheHas(c.cache, k), cacheVal(c.cache, k)
+		cv, k := arg(0), arg(1)
+		if fname == "cacheHas" {
+			return boolVal(c.x.heapRead(c.st, "map:Str:gocache:has", SBool, cv.L[0], k.L[0]))
+		}
+		return Val{T: types.NewInterfaceType(nil, nil), L: []string{c.x.heapRead(c.st, "map:Str:gocache:val", SIface, cv.L[0], k.L[0])}}
 	case "buflen":
 		// buflen(b): number of bytes held by a *bytes.Buffer (model field)
 		b := arg(0)
